@@ -155,6 +155,17 @@ CLAIMED["C17"] = dict(
     technique="TLC check of Match o Permute o Instantiate = id on the matching specification + replay into the real matcher",
     design="7/C17")
 
+CLAIMED["C13"] = dict(
+    text="BBObjects models programs as objects over a heap of mutable cells (operation dicts, argument lists, keyword dicts, arrays, variable dict). "
+         "TLC explores every history of API calls (dumps, attribute reads, to_DiGraph, match_template, template calls creating instances, five kinds "
+         "of mutation of an instance) up to a depth and checks the action properties Pure (read-only actions leave the content of every object "
+         "unchanged) and OnlyTargetChanges, and the invariant Independent (no cell reachable from two objects); two teeth runs (to_DiGraph filling "
+         "missing args; shallow instances) must yield counterexamples. Every history is replayed on real objects with a deep digest (structure + "
+         "dumps text) of every live object after every action, and final contents are compared with the specification's heap.",
+    note="Trusted: TLC. One template and one program with fixed content; histories of length 3 (quick) / 4 (thorough). Mutating returned graphs is outside the property.",
+    technique="TLC exploration of API histories on a heap-of-cells specification + history replay with per-step digests of all live objects",
+    design="7/C13")
+
 NOT_YET = {}
 
 
